@@ -114,3 +114,45 @@ def uf_stub(name, real, label, positive=True):
             return out[()]
         return SymArray(out, np.float64)
     return f
+
+
+def make_gaussian_opaque_patches():
+    """For contracts that only look at mean / covariance: the sklearn helpers return fresh (unconstrained) symbols."""
+    from pb_bss.distribution import gaussian as g
+    real_pc, real_ld = g._compute_precision_cholesky, g._compute_log_det_cholesky
+
+    def fresh_like(shape, tag):
+        c = S.ctx()
+        out = np.empty(shape, dtype=object)
+        for idx in np.ndindex(*shape):
+            v = c.new_var(tag)
+            c.evalfn[v.args[0]] = (lambda ev: 0.0)
+            out[idx] = R(v)
+        return SymArray(out, np.float64)
+
+    def pc(covariances, covariance_type):
+        if not _is_sym(covariances):
+            return real_pc(covariances, covariance_type)
+        return fresh_like(symnp._sa(covariances).shape, 'opaque_pc')
+
+    def ld(matrix_chol, covariance_type, n_features):
+        if not _is_sym(matrix_chol):
+            return real_ld(matrix_chol, covariance_type, n_features)
+        return fresh_like((symnp._sa(matrix_chol).shape[0],), 'opaque_ld')
+    return [(g, '_compute_precision_cholesky', pc), (g, '_compute_log_det_cholesky', ld)]
+
+
+class Recorder:
+    """Wraps a function and records (args, kwargs, result) of every call."""
+
+    def __init__(self, real):
+        self.real = real
+        self.calls = []
+
+    def __call__(self, *a, **k):
+        r = self.real(*a, **k)
+        self.calls.append((a, k, r))
+        return r
+
+    def clear(self):
+        self.calls = []
